@@ -76,15 +76,19 @@ func (w *c13World) c13FeeIn(app, asset uint64, amt sdk.Int) {
 func (w *c13World) c13After(t time.Time) bool { return w.ctx.BlockTime().After(t) }
 
 // emit the model ops of one real unit that closed several auctions: all but the last as "pre"
-func (w *c13World) c13EmitMulti(res string, ops []string) {
-	if res != "ok" || len(ops) == 0 {
+// ext: the harness's prediction, from the token-mint and bank stores, that the part of the unit that lies
+// inside the auction module (escrow transfers, token-mint burn / mint) succeeds; the runner expects class
+// err when it is false and the model's own class otherwise, and compares with [res]
+func (w *c13World) c13EmitMulti(res string, ops []string, ext bool) {
+	if len(ops) == 0 {
 		w.tr.p("op noop %s", res)
 		return
 	}
+	w.tr.p("ext %s", b2s(ext))
 	for _, o := range ops[:len(ops)-1] {
-		w.tr.p("pre %s ok", o)
+		w.tr.p("pre %s %s", o, res)
 	}
-	w.tr.p("op %s ok", ops[len(ops)-1])
+	w.tr.p("op %s %s", ops[len(ops)-1], res)
 }
 
 func (w *c13World) c13V1Surplus(app, asset uint64) {
@@ -98,16 +102,20 @@ func (w *c13World) c13V1Surplus(app, asset uint64) {
 	esm, _ := a.EsmKeeper.GetESMStatus(w.ctx, app)
 	if am.IsSurplusAuction && am.IsAuctionActive {
 		var ops []string
+		ext := true
 		for _, au := range a.AuctionKeeper.GetSurplusAuctions(w.ctx, app) {
 			if w.c13After(au.EndTime) || w.c13After(au.BidEndTime) || esm.Status {
 				if au.AuctionStatus == auctiontypes.AuctionStartNoBids && !esm.Status {
 					continue // restart: no collector effect
 				}
 				ops = append(ops, fmt.Sprintf("v1sc %d %d %s %s %s", app, au.AssetId, au.SellToken.Amount, b2s(au.Bidder != nil), b2s(esm.Status)))
+				if au.Bidder != nil && !esm.Status {
+					ext = ext && w.c13MintOK(au.AppId, au.AssetInId, au.Bid.Amount, true)
+				}
 			}
 		}
 		res := w.c13Apply(func(ctx sdk.Context) error { return a.AuctionKeeper.SurplusActivator(ctx, am, ks, esm.Status) })
-		w.c13EmitMulti(res, ops)
+		w.c13EmitMulti(res, ops, ext)
 		return
 	}
 	res := w.c13Apply(func(ctx sdk.Context) error { return a.AuctionKeeper.SurplusActivator(ctx, am, ks, esm.Status) })
@@ -125,6 +133,7 @@ func (w *c13World) c13V1Debt(app, asset uint64) {
 	esm, _ := a.EsmKeeper.GetESMStatus(w.ctx, app)
 	if am.IsDebtAuction && am.IsAuctionActive {
 		var ops []string
+		ext := true
 		for _, au := range a.AuctionKeeper.GetDebtAuctions(w.ctx, app) {
 			if w.c13After(au.EndTime) || w.c13After(au.BidEndTime) || esm.Status {
 				if au.AuctionStatus == auctiontypes.AuctionStartNoBids && !esm.Status {
@@ -132,10 +141,13 @@ func (w *c13World) c13V1Debt(app, asset uint64) {
 				}
 				ops = append(ops, fmt.Sprintf("v1dc %d %d %s %s %s", app, au.AssetId, au.ExpectedUserToken.Amount,
 					b2s(au.AuctionStatus != auctiontypes.AuctionStartNoBids), b2s(esm.Status)))
+				if au.AuctionStatus != auctiontypes.AuctionStartNoBids && !esm.Status {
+					ext = ext && w.c13MintOK(au.AppId, au.AssetOutId, au.CurrentBidAmount.Amount, false)
+				}
 			}
 		}
 		res := w.c13Apply(func(ctx sdk.Context) error { return a.AuctionKeeper.DebtActivator(ctx, am, ks, esm.Status) })
-		w.c13EmitMulti(res, ops)
+		w.c13EmitMulti(res, ops, ext)
 		return
 	}
 	res := w.c13Apply(func(ctx sdk.Context) error { return a.AuctionKeeper.DebtActivator(ctx, am, ks, esm.Status) })
@@ -215,16 +227,20 @@ func (w *c13World) c13V2Close() {
 		}
 		lv, _ := a.NewliqKeeper.GetLockedVault(w.ctx, au.AppId, au.LockedVaultId)
 		auc := au
+		// the steps inside the auction module: the bid is in escrow, token-mint can burn it (surplus) / mint the lot (debt)
+		escrow := bal(a, w.ctx, modAddr(auctionsV2types.ModuleName), au.DebtToken.Denom).GTE(au.DebtToken.Amount)
+		canBurn := w.c13MintOK(au.AppId, au.DebtAssetId, au.DebtToken.Amount, true)
+		canMint := w.c13MintOK(au.AppId, au.DebtAssetId, au.CollateralToken.Amount, false)
 		res := w.c13Apply(func(ctx sdk.Context) error { return a.NewaucKeeper.CloseEnglishAuction(ctx, auc) })
 		switch {
-		case res != "ok":
-			w.tr.p("op noop %s", res)
 		case lv.InitiatorType == "surplus":
-			w.tr.p("op v2sc %d %d %s ok", au.AppId, au.CollateralAssetId, au.CollateralToken.Amount)
+			w.tr.p("ext %s", b2s(escrow && canBurn))
+			w.tr.p("op v2sc %d %d %s %s", au.AppId, au.CollateralAssetId, au.CollateralToken.Amount, res)
 		case lv.InitiatorType == "debt":
-			w.tr.p("op v2dc %d %d %s %d %s ok", au.AppId, au.CollateralAssetId, au.CollateralToken.Amount, w.c13AssetOfDenom(au.DebtToken.Denom), au.DebtToken.Amount)
+			w.tr.p("ext %s", b2s(escrow && canMint))
+			w.tr.p("op v2dc %d %d %s %d %s %s", au.AppId, au.CollateralAssetId, au.CollateralToken.Amount, w.c13AssetOfDenom(au.DebtToken.Denom), au.DebtToken.Amount, res)
 		default:
-			w.tr.p("op noop ok")
+			w.tr.p("op noop %s", res)
 		}
 		return
 	}
